@@ -46,6 +46,19 @@ def check(ctx):
     a.push(0x20).push(0).push(0).op("RETURNDATACOPY").push(0x20).push(0).push(0).op("CALLER").op("EXTCODECOPY")
     a.push(0x40).push(0).push(0).push(0).push(0).op("CALLER").op("GAS").op("CALL").push(4).op("SSTORE").op("STOP")
     small.append(a.assemble())
+    # a bulk copy as the very first work of the only thread (nothing recorded before it): a stop first seen by the copy
+    # loop's own poll must still surface, whatever happens afterwards
+    for opn, npre in (("CODECOPY", 3), ("CALLDATACOPY", 3), ("RETURNDATACOPY", 3), ("EXTCODECOPY", 4)):
+        for size in (0x20, 0x80, 0x400):
+            b = gen.Asm()
+            b.push(size).push(0).push(0)
+            if npre == 4:
+                b.op("CALLER")
+            b.op(opn).push(1).push(0).op("SSTORE").op("STOP")
+            small.append(b.assemble())
+    b = gen.Asm()
+    b.push(0x40).push(0).push(0).push(0).push(0).op("CALLER").op("GAS").op("CALL").op("STOP")
+    small.append(b.assemble())
     small += gen.loop_programs(rng, bw, 4 if ctx.quick else 20)
     small += gen.c07_programs(rng, bw, 4 if ctx.quick else 20)
     real = [bytes.fromhex(h) for _, h in gen.real_contracts()]
